@@ -93,15 +93,28 @@ type C17Scale struct {
 	MaxLevel int     `json:"max_level"`
 }
 
+// C17Seq is a history: several scales used one after the other in one process.
+// Each must give the ticks of its own definition whatever was used before.
+type C17Seq struct {
+	Scales []C17Scale `json:"scales"`
+}
+
+func c17SeqCheck(c *C17Seq, r *core.Rec) {
+	for i := range c.Scales {
+		sc := c.Scales[i]
+		c17TicksCheck(&sc, r)
+	}
+}
+
 func init() {
 	core.Register(&core.Prop{
 		ID:    "C17",
 		Title: "Ticks are few enough, nice, ascending, inside the domain; Nice only expands",
 		Run:   c17Run,
-		Kinds: []core.Kind{core.ReplayOf("findlevel", c17FindCheck), core.ReplayOf("ticks", c17TicksCheck)},
+		Kinds: []core.Kind{core.ReplayOf("findlevel", c17FindCheck), core.ReplayOf("ticks", c17TicksCheck), core.ReplayOf("tickseq", c17SeqCheck)},
 		Rule: "FindLevel: every non-increasing step function levels -4..4 -> {0..4} (715 tickers) x Max 0..3 x every (MinLevel,MaxLevel) in [-5,5]^2 (including (0,0)=unlimited and Min>Max) x every guess in -7..7 and +-2000; " +
 			"Ticks/Nice: Linear width in 12 values 1e-9..1e9 x centre/width in 9 values x Base in {0,2,3,5,10,16} x Max 1..20 x 4 level limits; Log min=+-10^e x 6 ratios x 5 bases x Max 1..20. " +
-			"Oracle: brute-force lowest admissible level; tick sets by definition (all multiples of the spacing inside the domain). Non-trivial: an admissible level exists.",
+			"Histories: 4 domains x every ordered pair of bases (x Log in between) as single cases. Oracle: brute-force lowest admissible level; tick sets by definition (all multiples of the spacing inside the domain). Non-trivial: an admissible level exists.",
 		Technique: "exhaustive enumeration of monotone tickers x options x guesses for FindLevel; bounded-exhaustive domain x option lattice for Ticks/Nice against definitional tick sets",
 		Assumptions: []string{
 			"ticks may lie up to 1e-9 domain widths outside the domain (the library's own slack is 1e-10) and a multiple of the spacing within 1e-9 widths of a domain end may be present or absent",
@@ -538,6 +551,30 @@ func c17Run(c *core.Ctx) {
 	bases := []int{0, 2, 3, 5, 10, 16}
 	limits := [][2]int{{0, 0}, {-2, 2}, {1, 1}, {-6, -3}}
 	sc := &C17Scale{}
+	// histories, each in a fresh process (the history starts from the initial package state): the same domain under every ordered pair of bases (and of a Linear and
+	// a Log scale), as one self-contained case each
+	seq := &C17Seq{}
+	for _, d := range [][2]float64{{0, 1}, {2, 9}, {-30, 470}, {0.001, 0.0035}} {
+		for _, b1 := range bases {
+			for _, b2 := range bases {
+				if b1 == b2 || !c.Mine() {
+					continue
+				}
+				for _, tmax := range []int{3, 7} {
+					seq.Scales = []C17Scale{
+						{Min: d[0], Max: d[1], Base: b1, TMax: tmax},
+						{Min: d[0], Max: d[1], Base: b2, TMax: tmax},
+						{Min: d[0], Max: d[1], Base: b1, TMax: tmax},
+					}
+					if d[0] > 0 && b1 >= 2 {
+						seq.Scales = append(seq.Scales, C17Scale{Log: true, Min: d[0], Max: d[1] * 1000, Base: b1, TMax: tmax},
+							C17Scale{Min: d[0], Max: d[1], Base: b2, TMax: tmax})
+					}
+					r.Isolated("tickseq", seq)
+				}
+			}
+		}
+	}
 	for _, w := range widths {
 		for _, cw := range centres {
 			for _, base := range bases {
@@ -574,6 +611,33 @@ func c17Run(c *core.Ctx) {
 			}
 		}
 	}
+	// domains whose ends lie a hair inside (or outside) a tick position: the rounding
+	// slack must treat every level alike
+	for _, k := range [][2]float64{{1, 5}, {1, 2}, {-3, 4}, {0, 1}} {
+		for _, u := range []float64{1, 1e-3, 250} {
+			for _, h := range []float64{0.8e-10, 0.3e-10, 1e-12, 3e-10, -0.8e-10, -1e-12} {
+				for variant := 0; variant < 3; variant++ {
+					for _, base := range bases {
+						if !c.Mine() {
+							continue
+						}
+						lo, hi := k[0]*u, k[1]*u
+						if variant != 1 {
+							lo = (k[0] + h) * u
+						}
+						if variant != 0 {
+							hi = (k[1] - h) * u
+						}
+						for tmax := 1; tmax <= 20; tmax += 1 + tmax/8 {
+							*sc = C17Scale{Min: lo, Max: hi, Base: base, TMax: tmax}
+							r.Case("ticks", sc)
+							r.Try(func() { c17TicksCheck(sc, r) })
+						}
+					}
+				}
+			}
+		}
+	}
 	// --- Log ticks ----------------------------------------------------------------
 	for _, e := range []float64{-100, -7, -1, 0, 2, 50} {
 		for _, ratio := range []float64{1.5, 9, 10, 1e3, 1e9, 1e100, 0.9999999999999999e3} {
@@ -598,5 +662,5 @@ func c17Run(c *core.Ctx) {
 			}
 		}
 	}
-	r.Bound("ticks", "Linear 12 widths x 9 centres x 6 bases x Max 1..20 x 4 level limits (+ decreasing domains, exact-boundary domains); Log 6 x 7 x 5 bases x 2 signs x Max 1..20 x 3 limits")
+	r.Bound("ticks", "Linear 12 widths x 9 centres x 6 bases x Max 1..20 x 4 level limits (+ decreasing domains, exact-boundary domains, 4 x 3 x 6 x 3 domains with ends a hair inside/outside a tick); Log 6 x 7 x 5 bases x 2 signs x Max 1..20 x 3 limits")
 }
